@@ -29,7 +29,7 @@ import (
 // Spec describes one test function of a property package to the driver.
 type Spec struct {
 	Name string `json:"name"` // Go test function name
-	Kind string `json:"kind"` // "rapid" (driver passes -rapid.checks/-rapid.seed) or "plain"
+	Kind string `json:"kind"` // "rapid" (driver passes -rapid.checks/-rapid.seed), "plain", or "fuzz" (native go fuzz target, thorough tier only; Thorough = seconds of fuzzing)
 	// number of rapid checks (all shards together) per tier; ignored for plain tests
 	Quick    int `json:"quick"`
 	Thorough int `json:"thorough"`
@@ -73,7 +73,11 @@ func Main(m *testing.M, property string) {
 	}
 	global.property = property
 	code := m.Run()
-	Flush()
+	// worker processes of the native fuzzing engine share the environment of
+	// their coordinator: only the coordinator reports
+	if f := flag.Lookup("test.fuzzworker"); f == nil || f.Value.String() != "true" {
+		Flush()
+	}
 	os.Exit(code)
 }
 
